@@ -139,6 +139,59 @@ def task_keygen(a, env):
     return r
 
 
+def mut_case(a):
+    """one history: call with bytearray arguments, mutate them in place, call again - both results
+    must be the RFC values of the contents at the time of the call"""
+    H = _h()
+    out = []
+    if a["which"] == "extract":
+        salt, ikm = bytearray(_fill("count", a["l1"], 1)), bytearray(_fill("count", a["l2"], 2))
+        for step in range(3):
+            exp = ("ok", M.extract(bytes(salt), bytes(ikm)))
+            got = _norm(_call(H.hkdf_extract, salt, ikm))
+            out.append((step, exp, got))
+            if step == 0 and len(salt):
+                salt[0] ^= 0x55
+            elif step == 1 and len(ikm):
+                ikm[-1] ^= 0x0F
+    else:
+        prk, info = bytearray(_fill("count", 32, 7)), bytearray(_fill("count", a["l2"], 3))
+        for step in range(3):
+            exp = ("ok", M.expand(bytes(prk), bytes(info), a["l1"]))
+            got = _norm(_call(H.hkdf_expand, prk, info, a["l1"]))
+            out.append((step, exp, got))
+            if step == 0:
+                prk[0] ^= 0x55
+            elif step == 1 and len(info):
+                info[-1] ^= 0x0F
+    return out
+
+
+def task_mutated(a, env):
+    r = R("hkdf:bytearray-arguments-mutated-between-calls")
+    for which in ("extract", "expand"):
+        for l1 in ((0, 1, 13, 32, 64, 65) if which == "extract" else (1, 32, 42, 82)):
+            for l2 in (0, 1, 22, 80):
+                c = {"which": which, "l1": l1, "l2": l2}
+                res = mut_case(c)
+                r.ev += len(res)
+                r.dk.add((which, l1, l2))
+                for step, exp, got in res:
+                    if exp != got:
+                        r.viol("C16:hkdf_%s:stale-after-in-place-mutation" % which, ME + ":replay_mut", c, exp, got,
+                               note="call %d of 3" % step)
+                        break
+    r.sample({"sequence": "f(bytearrays) ; mutate salt/prk in place ; f ; mutate ikm/info ; f"})
+    return r
+
+
+def replay_mut(a):
+    for step, exp, got in mut_case(a):
+        if exp != got:
+            return {"call": step, "expected": exp, "observed": got}
+    return None
+
+
 def replay(a):
     exp, got = {"extract": ex_case, "expand": xp_case, "keygen": kg_case}[a["f"]](a)
     return None if exp == got else {"expected": exp, "observed": got}
@@ -173,10 +226,12 @@ def run(ctx):
     for prklen in (0, 1, 31, 33, 64, 65, 100):
         tasks.append(("expand", {"Ls": [0, 1, 32, 33, 64, 100, 8160], "linfos": [0, 3], "fill": "count",
                                  "prklen": prklen}))
+    tasks.append(("mutated", {}))
     for si, suite in enumerate(("G2Basic", "G2MessageAugmentation", "G2ProofOfPossession")):
         lis = list(range(0, 129)) if (si == 0 or not q) else [0, 1, 31, 32, 33, 64, 128]
         lks = list(range(0, 65)) if (si == 0 or not q) else [0, 1, 32, 64]
         for i in range(6):
             tasks.append(("keygen", {"suite": suite, "lis": lis[i::6], "lks": lks,
-                                     "fills": ["count"] if q else ["count", "zero"], "sample": i == 0}))
+                                     "fills": ["count", "zero", "ff"] if (si == 0 or not q) else ["zero"],
+                                     "sample": i == 0}))
     ctx.pmap(ME, tasks)
